@@ -1,1 +1,4 @@
 import GMProofs.Props.C17
+import GMProofs.Props.C01
+import GMProofs.Props.C02
+import GMProofs.Props.C03
